@@ -2,6 +2,7 @@ package rules
 
 import (
 	"go/token"
+	"sort"
 	"strings"
 
 	"golang.org/x/tools/go/ssa"
@@ -640,6 +641,148 @@ func migrationGuards(c *Ctx, r *R) {
 					r.Ok(key, st.Pos(), "%s is copied unconditionally, per element, or under a nil-test of its own source field", field)
 				}
 			}
+		}
+	}
+}
+
+func init() {
+	reg(&eng.Rule{ID: "C14.hash-table", Prop: "C14", Floor: 1,
+		Doc: "githash.NewHash — through which every identifier of a parsed entry passes — accepts a string exactly when its length is 40 or 64 and it decodes as hexadecimal: length neither 40 nor 64 → ErrInvalidHashLength, otherwise a decoding error → ErrInvalidHashEncoding, otherwise the decoded bytes. Decided as a decision table.",
+		Run: hashTable})
+}
+
+func hashTable(c *Ctx, r *R) {
+	fn := r.Fn("pkg/githash.NewHash")
+	if fn == nil {
+		return
+	}
+	r.Site(1)
+	lenH := eng.PLen(eng.PParam("h"))
+	var hexErr ssa.Value
+	for _, k := range eng.CallsTo(fn, false, "encoding/hex.DecodeString") {
+		if eng.PParam("h")(k.Arg(0)) {
+			hexErr, _ = k.ErrResult()
+		}
+	}
+	if hexErr == nil {
+		r.Bad("table", fn.Pos(), "NewHash does not decode its argument with hex.DecodeString (or drops the error)")
+		return
+	}
+	atoms := func(v ssa.Value) (string, bool, bool) {
+		for n, name := range map[int64]string{40: "lenNot40", 64: "lenNot64"} {
+			if op, ok := eng.CmpAtom(v, lenH, eng.PInt(n)); ok {
+				switch op {
+				case token.NEQ:
+					return name, true, true
+				case token.EQL:
+					return name, false, true
+				}
+			}
+		}
+		if op, ok := eng.CmpAtom(v, eng.PSame(hexErr), eng.PNil()); ok {
+			switch op {
+			case token.NEQ:
+				return "notHex", true, true
+			case token.EQL:
+				return "notHex", false, true
+			}
+		}
+		return "", false, false
+	}
+	runTable(c, r, dtable{key: "table", fn: fn, start: fn.Blocks[0], what: "NewHash", names: []string{"lenNot40", "lenNot64", "notHex"}, atoms: atoms,
+		consistent: func(a map[string]bool) bool { return a["lenNot40"] || a["lenNot64"] },
+		outcome:    retLabel,
+		spec: func(a map[string]bool) string {
+			if a["lenNot40"] && a["lenNot64"] {
+				return "err:ErrInvalidHashLength"
+			}
+			if a["notHex"] {
+				return "err:ErrInvalidHashEncoding"
+			}
+			return "ok"
+		}})
+	// the value returned on success is the decoded byte string
+	okV := false
+	for _, ret := range eng.Returns(fn) {
+		if retLabel(ret) == "ok" {
+			if k, idx, ok := eng.RootCall(eng.Strip(eng.RetVal(ret, 0))); ok && idx == 0 && k.Name() == "encoding/hex.DecodeString" {
+				okV = true
+			}
+		}
+	}
+	r.Check(okV, "returns-decoded", fn.Pos(), "the hash returned is the decoded argument", "NewHash does not return hex.DecodeString's result")
+}
+
+func init() {
+	reg(&eng.Rule{ID: "C14.fields-stored", Prop: "C14", Floor: 10,
+		Doc: "Each parser stores the value of every key it accepts into the field that the writer of that entry kind takes it from: ref→RefName, targetID→TargetID, number→Number, entryID→RSLEntryIDs (appended), skip→Skip, upstreamRepository→UpstreamRepository, upstreamEntryID→UpstreamEntryID; a key whose case has no such store (or stores into another field) yields an entry whose canonical text differs from the text parsed.",
+		Run: fieldsStored})
+}
+
+func fieldsStored(c *Ctx, r *R) {
+	want := map[string]map[string]string{
+		"pkg/rsl.parseReferenceEntryText":   {"ref": "RefName", "targetID": "TargetID", "number": "Number"},
+		"pkg/rsl.parseAnnotationEntryText":  {"entryID": "RSLEntryIDs", "skip": "Skip", "number": "Number"},
+		"pkg/rsl.parsePropagationEntryText": {"ref": "RefName", "targetID": "TargetID", "upstreamRepository": "UpstreamRepository", "upstreamEntryID": "UpstreamEntryID", "number": "Number"},
+	}
+	for spec, table := range want {
+		fn := r.Fn(spec)
+		if fn == nil {
+			continue
+		}
+		short := spec[strings.LastIndex(spec, ".")+1:]
+		// edges on which `key == K` holds, per constant K
+		keyEdges := map[string][]eng.Edge{}
+		for k := range table {
+			keyEdges[k] = eng.RelEdges(fn, token.EQL, eng.PAny(), eng.PStr(k))
+		}
+		got := map[string]map[string]bool{}
+		note := func(b *ssa.BasicBlock, field string) {
+			for k, es := range keyEdges {
+				for _, e := range es {
+					if eng.EdgeDominates(e, b) {
+						if got[k] == nil {
+							got[k] = map[string]bool{}
+						}
+						got[k][field] = true
+					}
+				}
+			}
+		}
+		for _, b := range fn.Blocks {
+			for _, in := range b.Instrs {
+				switch x := in.(type) {
+				case *ssa.Store:
+					if fa, ok := x.Addr.(*ssa.FieldAddr); ok {
+						note(b, fieldNameOf(fa))
+					}
+				case ssa.CallInstruction:
+					k := Call{Instr: x, Callee: eng.CalleeOf(x)}
+					if k.Name() == "pkg/rsl.setHash" || k.Name() == "pkg/rsl.setNumber" {
+						if fa, ok := k.Arg(0).(*ssa.FieldAddr); ok {
+							note(b, fieldNameOf(fa))
+						}
+					}
+				}
+			}
+		}
+		keys := make([]string, 0, len(table))
+		for k := range table {
+			keys = append(keys, k)
+		}
+		sort.Strings(keys)
+		for _, k := range keys {
+			r.Site(1)
+			f := table[k]
+			var others []string
+			for g := range got[k] {
+				if g != f {
+					others = append(others, g)
+				}
+			}
+			sort.Strings(others)
+			r.Check(got[k][f] && len(others) == 0, "stored:"+short+":"+k, fn.Pos(), "key "+k+" → field "+f,
+				"the value of key '"+k+"' is not stored into "+f+" (and nothing else) in "+short+" (fields written in that case: "+strings.Join(append(others, ""), " ")+")")
 		}
 	}
 }
